@@ -59,6 +59,24 @@ theorem commonType_unknown (a : Ty) : commonType a .unknown = some a ∧ commonT
 example : mix [("T", .native "Optional" [.unknown])] [("T", .native "Optional" [.int])] = some [("T", .native "Optional" [.int])] ∧
     mix [("T", .native "Optional" [.unknown])] [("T", .str)] = none := ⟨rfl, rfl⟩
 
+/-- `common_type` does not depend on the order of its arguments (types of expressions that are not function names) -/
+theorem commonType_comm (a b : Ty) (ha : funcFree a = true) (hb : funcFree b = true) :
+    commonType a b = commonType b a :=
+  commonType_comm' a b ha hb
+
+/-- **inferred types are least common types**: when `common_type` succeeds its result is an upper bound of both
+types for the assignability order `Sub`, and it is below every other upper bound -/
+theorem commonType_lub (ar : String → Nat) (a b c : Ty) (ha : good ar a) (hb : good ar b)
+    (h : commonType a b = some c) :
+    Sub a c ∧ Sub b c ∧ ∀ d, Sub a d → Sub b d → Sub c d :=
+  ⟨(commonType_ub' ar a b c ha hb h).2.1, (commonType_ub' ar a b c ha hb h).2.2,
+   fun d h1 h2 => commonType_least' a b c d h h1 h2⟩
+
+/-- non-vacuity: `[P(none(), [1]), P(some(1), [])]` (the repaired witness): the common type joins argument-wise -/
+example : commonType (.compound .struct "P" [.native "Optional" [.unknown], .native "Sequence" [.int]])
+      (.compound .struct "P" [.native "Optional" [.int], .native "Sequence" [.unknown]]) =
+    some (.compound .struct "P" [.native "Optional" [.int], .native "Sequence" [.int]]) := rfl
+
 /-- a call binds only when the number of arguments lies in the window [required, all parameters] -/
 theorem specBind_arity (f : FuncSpec) (args : List Ty) (b : Bnd) (h : specBind f args = some b) :
     f.nreq ≤ args.length ∧ args.length ≤ f.ps.length := by
